@@ -123,6 +123,9 @@ func c15Same(a, b c15Outcome) string {
 func (w *W) c15Program(k int) {
 	hseed := int64(w.Out.Seed)*3000017 + int64(k)
 	cs := &ev.Case{Gen: "c15-program", A: hseed, B: int64(k)}
+	if c15SerPanicBudget <= 0 {
+		cs.C = 1 // this program runs without recovered-Serialize-panic steps (replay does the same)
+	}
 	w.Journal(cs)
 	if w.Skip() {
 		return
@@ -339,7 +342,11 @@ func (w *W) c15Program(k int) {
 				})
 				trace = append(trace, "deser(payload-damaged)")
 			}
-			if r.Chance(1, 6) {
+			if r.Chance(1, 6) && cs.C == 0 {
+				// (at most c15SerPanicBudget of these per process: a Serialize that panics half-way
+				// leaves its block compressors unclosed, and each keeps megabytes of buffers alive
+				// through its blocked writer goroutine; a thorough shard grew to 38 GB that way)
+				c15SerPanicBudget--
 				// a Serialize call that fails the only way it can (it panics on a tape it cannot
 				// represent: here a string entry pointing far outside the buffers, placed behind
 				// other strings) and is recovered by the caller; the Serializer is then used again
@@ -486,6 +493,9 @@ func (w *W) c15SerializerSizes(k int) {
 	w.Nontrivial(uint64(hseed))
 }
 
+// c15SerPanicBudget: how many recovered Serialize panics a worker process still provokes.
+var c15SerPanicBudget = 60
+
 func runC15(w *W) {
 	n := 9000
 	ns := 160
@@ -517,5 +527,8 @@ func replayC15(w *W, cs *ev.Case) {
 		return
 	}
 	w.Out.Seed = uint64((cs.A - cs.B) / 3000017)
+	if cs.C == 1 {
+		c15SerPanicBudget = 0
+	}
 	w.c15Program(int(cs.B))
 }
